@@ -342,7 +342,9 @@ func buildSinks() []xSink {
 		{Name: "setter", Make: store("$o2 = new XO; $o2->set1(%s);", "$o2->p1")},
 		{Name: "staticPropStore", Make: store("XO::$sq = %s;", "XO::$sq")},
 		{Name: "thisPropStore", Scope: "method", Make: store("$this->p1 = %s;", "$this->p1")},
-		{Name: "selfStaticStore", Scope: "method", Make: store("self::$st = %s;", "self::$st")},
+		// (`array_push(self::$p, …)`: a by-reference argument written as self::$p ends the method
+		//  silently on this tree — not an array matter; by-reference functions left out)
+		{Name: "selfStaticStore", Scope: "method", NoFunc: true, Make: store("self::$st = %s;", "self::$st")},
 		{Name: "lateStaticStore", Scope: "method", Make: store("static::$st = %s;", "static::$st")},
 		{Name: "elemStore", NoFunc: true, ElemTarget: true, Make: store("$c2 = [0, 0]; $c2[1] = %s;", "$c2[1]")},
 		{Name: "elemAppend", NoFunc: true, ElemTarget: true, Make: store("$c2 = [0]; $c2[] = %s;", "$c2[1]")},
@@ -517,14 +519,11 @@ func xCase(scope string, s xShape, ow xOwner, p xProd, sk xSink, m xMut) *Case {
 }
 
 // signature of a composite-route failure. A write applied to the expression itself
-// (sink `temp`) is one mechanism per (expression kind, kind of write).
+// (sink `temp`) is one mechanism per kind of expression: whatever the write is (element
+// store, unset, in-place method), it acts on the array the expression evaluated to.
 func xSig(kind string, cs *Case) string {
 	if sk, ok := xSinkByName(cs.Side); ok && sk.Temp && kind == "xleak" {
-		mk := cs.Mut
-		if m, ok := xMutByName(cs.Mut); ok {
-			mk = m.Kind
-		}
-		return "xtemp:" + cs.Route + ":" + mk
+		return "xtemp:" + cs.Route
 	}
 	return kind + ":" + cs.Route + ":" + cs.Side + ":" + cs.Mut
 }
@@ -564,7 +563,13 @@ func (r *runner) runX(cs *Case) {
 		r.seen(sig, cs)
 		what := fmt.Sprintf("composite route %s -> %s (%s scope): the write behind the by-value boundary changed the owner: %s -> %s", cs.Route, cs.Side, cs.Scope, lines[0], lines[1])
 		if sk.Temp {
-			what = fmt.Sprintf("a write applied to the expression itself (%s) changed what the expression was read from: %s -> %s", cs.Route, lines[0], lines[1])
+			stmt := ""
+			for _, l := range strings.Split(cs.Src, "\n") {
+				if strings.HasPrefix(l, "try { ") {
+					stmt = strings.TrimSuffix(strings.TrimPrefix(l, "try { "), " } catch (\\Throwable $ex) { }")
+				}
+			}
+			what = fmt.Sprintf("a write applied to an expression that is not a name, `%s`, changed the array the expression was read from: %s -> %s", stmt, lines[0], lines[1])
 		}
 		c.Violation(sig, what, cs)
 		return
@@ -589,13 +594,20 @@ func (r *runner) xEnumerate(full bool) int {
 	quickMuts := map[string]bool{"append": true, "storeIdx": true, "pop": true, "array_push": true}
 	repProd := map[string]bool{"getter": true, "staticLocal": true}
 	repSink := map[string]bool{"func": true, "ctor": true, "temp": true}
+	scopeMuts := map[string]bool{"append": true, "storeIdx": true, "storeKey": true, "unset": true, "pop": true, "sort": true, "array_push": true}
 	for _, scope := range xScopes {
 		for _, s := range xShapes {
 			for _, ow := range xOwners {
 				for _, p := range ow.Prods {
 					for _, sk := range xSinks {
 						for _, m := range xMuts {
-							if !full {
+							if full {
+								// every combination at top level; inside a function / method body every
+								// (shape × producer × sink) under one mutation of each kind
+								if scope != "top" && !scopeMuts[m.Name] {
+									continue
+								}
+							} else {
 								pair := (s.Name == "list" && quickMuts[m.Name]) || (s.Name == "kv" && m.Name == "storeKey")
 								if scope != "top" || ow.Fresh {
 									// (a fresh interpreter per case is slow: one mutation)
